@@ -327,7 +327,8 @@ def reopen_dump(db):
     E._scripts = []
     E._item = -1
     E.internal_errors = []
-    raw_before = raw_rows(db)
+    # (nothing opens the file before the server does: a reader's connection would run SQLite's own recovery - and in
+    # WAL mode checkpoint the log into the file when it closes - i.e. repair what the restarted SERVER must cope with)
     E._open()
     try:
         d = E.dump()
@@ -347,14 +348,6 @@ def reopen_dump(db):
         consistent = sorted(base) == sorted(o["uid"] for o in d["objs"])
     finally:
         con.close()
-    # starting a server on the file (and reading everything) writes nothing: the rows of every table are what they
-    # were before the start - asked of SQLite itself, before and after
-    raw_after = raw_rows(db)
-    if raw_after != raw_before:
-        changed = sorted(t for t in set(raw_before) | set(raw_after) if raw_before.get(t) != raw_after.get(t))
-        RESTART_CHANGES.append({"tables": changed,
-                                "lost": {t: [r for r in raw_before.get(t, []) if r not in raw_after.get(t, [])][:4] for t in changed},
-                                "new": {t: [r for r in raw_after.get(t, []) if r not in raw_before.get(t, [])][:4] for t in changed}})
     return d["objs"], (readable and consistent and sorted(int(u) for u in uids) == sorted(o["uid"] for o in d["objs"]))
 
 
